@@ -161,6 +161,32 @@ func runLock(e Entry, rng *rand.Rand, stress int, real bool) {
 			}
 			count("reentrancy_programs", 1)
 		}
+		// ---- nil function field under -stub: the early return must not leave anything locked
+		if e.Stub {
+			in, _ := newInstance(e)
+			m, n := in.methods[mi], in.methods[(mi+1)%len(in.methods)]
+			p := &lockProg{e: e, in: in, name: fmt.Sprintf("stub-nil %s", m.Name), seen: map[string]bool{}}
+			isync.Reset()
+			p.nameLocks()
+			emit(map[string]any{"t": "progress", "mock": e.Name, "mode": "lock", "program": p.name})
+			steps := []string{"callM", "MCalls", "callM", "callN"}
+			if e.Resets {
+				steps = append(steps, "resetM", "callM", "resetAll")
+			}
+			for _, a := range steps {
+				if p.guarded(m.Name, func() { p.action(a, m, n) }) {
+					break
+				}
+				if held := isync.Held(isync.GID()); len(held) > 0 {
+					p.viol(m.Name, fmt.Sprintf("after %s with nil function fields the mock still holds %v", a, held))
+					break
+				}
+			}
+			for _, r := range isync.Reports() {
+				p.viol(m.Name, r)
+			}
+			count("stub_nil_programs", 1)
+		}
 		if real {
 			continue
 		}
